@@ -19,7 +19,9 @@ RULE = (
     "times library.sram_model().bit_area. R2 compute_power's leakage and dynamic totals depend on module.cells (info.leakage / "
     "info.internal_energy), module.ffs (ff_leakage / ff_internal_energy) and module.ram_blocks (bit_leakage, read / write energy). R3 every "
     "component list of GateModule (cells, ffs, ram_blocks; ports and nets are wiring) is read by compute_area, compute_power and "
-    "compute_timing; a new Vec field of GateModule is reported undecided until it is classified."
+    "compute_timing; a new Vec field of GateModule is reported undecided until it is classified. R4 (one necessary condition of 'only "
+    "driven nets are referenced') a synthesizer function that rewrites net references in both module.ffs and module.ports - a module-wide "
+    "rename - also rewrites the RAM ports (for_each_ram_input_net_mut or module.ram_blocks)."
 )
 
 CRATES = ["veryl_synthesizer"]
@@ -189,5 +191,21 @@ def run(world, tier, info, only=None):
         for f in sorted(COMPONENTS):
             ck.ob("R3", "%s-reads-%s" % (fn, f), f in read, site(w.fns[p]),
                   "%s reads module.%s" % (fn, f) if f in read else "%s never looks at module.%s: those components are missing from the report" % (fn, f))
+    # ---------------- R4 a module-wide net rename reaches every consumer list ------------------------------------------------------
+    n4 = 0
+    for p, sm in sorted(w.fns.items()):
+        if sm.get("alias_of") or "::tests::" in p or not p.startswith("veryl_synthesizer::"):
+            continue
+        mut = {f for key in ("fw", "fm") for a, f in [tuple(x) for x in (sm.get(key) or [])] if a == GM}
+        if not {"ffs", "ports"} <= mut:
+            continue
+        n4 += 1
+        sub = [p] + [q for q in w.fns if q.startswith(p + "::{closure")]
+        rams = any((c["c"] or "").endswith("GateModule::for_each_ram_input_net_mut") for q in sub for c in w.fns[q]["calls"]) or "ram_blocks" in mut
+        ck.ob("R4", "net-rename-covers-ram-ports:" + p.split("::")[-1], rams, site(sm),
+              "%s rewrites the nets of flip-flops and ports and also those of the RAM ports" % p.split("::")[-1] if rams else
+              "%s rewrites net references in module.ffs and module.ports (a module-wide rename) but never touches the RAM ports: a RAM input that used a "
+              "renamed net keeps reading the old, now undriven net" % p.split("::")[-1])
+    ck.floor("R4", "module-wide net renaming passes", n4, 2)
     ck.analysed = {"functions": [A + "compute_area", A + "compute_power", A + "compute_timing"], "gate_module_lists": vecs}
     return ck.finish(info)
